@@ -424,12 +424,15 @@ def readFF (natomsTab : List (String × Nat)) (tab : List Entry) (raw : List Str
 inductive Idx where
   | pos (n : Nat)
   | slice (start : Nat) (stop : Option Nat)
+  /-- an entry of `atom_idxs` that is neither an int nor a slice: the `else: raise IOError` branch -/
+  | bad
   deriving Repr, Inhabited
 
 /-- `_split_atoms_and_parameters`: positions selected by the index list (`none` = IndexError) -/
 def idxPositions (len : Nat) : List Idx → Option (List Nat)
   | [] => some []
   | .pos n :: rest => if n < len then (idxPositions len rest).map (n :: ·) else none
+  | .bad :: _ => none
   | .slice a b :: rest =>
     let stop := min (b.getD len) len
     -- a bounded slice must be filled completely (repair of F-C13-10): IOError otherwise
